@@ -125,7 +125,12 @@ func DrawScript(t *rapid.T, p Profile) Script {
 
 	// --- durations ---------------------------------------------------------------------------
 	var frameTicks int64 // nominal leading unit duration in ticks
-	if leadSpec.IsVideo() {
+	if leadSpec.IsVideo() && p.ConstantLL {
+		frameTicks = rapid.OneOf(
+			rapid.SampledFrom([]int64{3000, 3003, 1500, 1501, 3600, 3750, 3754, 6000, 6006, 9000, 7500, 750, 1800, 90000, 45000, 18000}),
+			rapid.Int64Range(750, 90000),
+		).Draw(t, "frameTicksC19")
+	} else if leadSpec.IsVideo() {
 		frameTicks = rapid.SampledFrom([]int64{3000, 3000, 3003, 1500, 1501, 3600, 3750, 6000, 9000, 750, 90000, 1, 7}).Draw(t, "frameTicks")
 	} else if leadSpec.Codec == "aac" {
 		frameTicks = 1024
@@ -136,7 +141,8 @@ func DrawScript(t *rapid.T, p Profile) Script {
 	switch {
 	case p.Long:
 		// tiny segments: one to a few units each
-		cfg.SegmentMinDuration = rapid.Int64Range(1, 4).Draw(t, "minUnits") * frameNS
+		// k units minus a third of a unit: boundary decisions stay clear of the 1 ns band
+		cfg.SegmentMinDuration = rapid.Int64Range(1, 4).Draw(t, "minUnits")*frameNS - frameNS/3
 		if cfg.SegmentMinDuration < 1 {
 			cfg.SegmentMinDuration = 1
 		}
@@ -147,9 +153,20 @@ func DrawScript(t *rapid.T, p Profile) Script {
 	}
 	if variant == VariantLL {
 		cfg.PartMinDuration = rapid.SampledFrom([]int64{20e6, 50e6, 100e6, 200e6, 500e6, 33e6, 71e6}).Draw(t, "partMin")
+		if p.ConstantLL {
+			cfg.PartMinDuration = rapid.OneOf(
+				rapid.Map(rapid.Int64Range(10, 400), func(v int64) int64 { return v * 5_000_000 }),
+				rapid.Int64Range(50_000_000, 2_000_000_000),
+			).Draw(t, "partMinC19")
+			cfg.SegmentMinDuration = rapid.SampledFrom([]int64{500e6, 1e9, 2e9, 3e9, 6e9}).Draw(t, "segMinC19")
+		}
 	}
 	if p.SmallMax {
-		cfg.SegmentMaxSize = uint64(rapid.IntRange(32, 4096).Draw(t, "segMaxSize"))
+		cfg.SegmentMaxSize = uint64(rapid.OneOf(rapid.IntRange(400, 2000), rapid.IntRange(2000, 20000)).Draw(t, "segMaxSize"))
+	}
+	spikeEvery := 0
+	if p.SmallMax {
+		spikeEvery = rapid.SampledFrom([]int{0, 0, 150, 400, 1000}).Draw(t, "spikeEvery")
 	}
 
 	nLead := rapid.IntRange(p.LeadUnits[0], p.LeadUnits[1]).Draw(t, "nLead")
@@ -203,8 +220,8 @@ func DrawScript(t *rapid.T, p Profile) Script {
 			for k := 0; k < nLead; k++ {
 				op := Op{Track: ti, TS: ts}
 				op.Size = rapid.IntRange(8, 40).Draw(t, "size")
-				if p.SmallMax {
-					op.Size = rapid.IntRange(8, 600).Draw(t, "bigsize")
+				if spikeEvery > 0 && rapid.IntRange(0, spikeEvery-1).Draw(t, "spike") == 0 {
+					op.Size = rapid.IntRange(int(cfg.SegmentMaxSize)/4, int(cfg.SegmentMaxSize)+50).Draw(t, "bigsize")
 				}
 				ra := false
 				if first && !midGOP {
@@ -302,8 +319,8 @@ func DrawScript(t *rapid.T, p Profile) Script {
 					break
 				}
 				op := Op{Track: ti, TS: ts, Size: rapid.IntRange(8, 32).Draw(t, "asize")}
-				if p.SmallMax {
-					op.Size = rapid.IntRange(8, 300).Draw(t, "abig")
+				if spikeEvery > 0 && rapid.IntRange(0, 2*spikeEvery-1).Draw(t, "aspike") == 0 {
+					op.Size = rapid.IntRange(int(cfg.SegmentMaxSize)/4, int(cfg.SegmentMaxSize)+50).Draw(t, "abig")
 				}
 				var adv int64
 				if spec.Codec == "aac" {
